@@ -1,6 +1,6 @@
 (* Parts/Parts_proofs.v -- C14, C15, C17 on the part models (real reading). *)
 From Coq Require Import Reals ZArith NArith List Bool Lra Lia.
-From SCAD Require Import Base.Num Base.NumR Base.Trig_proofs Base.Vec Base.Mat Geom.Dim2 Geom.Dim3 Text.Chars Text.Tree Parts.Thread Parts.Sem.
+From SCAD Require Import Base.Num Base.NumR Base.Trig_proofs Base.Vec Base.Mat Base.Mat_proofs Geom.Dim2 Geom.Dim3 Text.Chars Text.Tree Parts.Thread Parts.Sem.
 Import ListNotations.
 Local Open Scope R_scope.
 
@@ -138,4 +138,63 @@ Lemma flip_is_mirror_about_mid_height (p : pt3 R) h :
 Proof.
   destruct p as [px py pz]. cbv zeta. unfold pt3_rotated_x, pt3_add. cbn [x3 y3 z3]. rewrite dcos_180, dsin_180.
   cbn [nadd nmul nsub NumR]. repeat split; lra.
+Qed.
+
+(* ---------------- C17, semantically: the placements of polar_array, for every seed s (also when s is itself a union) ---------------- *)
+Definition placement := (M4 * scadop R text)%type.
+Definition proj (p : placed) : placement := (snd (fst p), snd p).
+Definition placements (t : rtree) : list placement := map proj (flatten mt4_identity [] t).
+Definition premul (a : M4) (p : placement) : placement := (mt4_mul a (fst p), snd p).
+
+(* the operators above an item do not influence where it is placed *)
+Lemma flatten_ctx_irrelevant : forall t m c c', map proj (flatten m c t) = map proj (flatten m c' t).
+Proof.
+  induction t as [o cs IH] using scad_ind'. intros m c c'. cbn [flatten]. destruct (mat_of_op o) as [mo|].
+  - induction IH as [|x l Hx Hl IHl]; [reflexivity|]. cbn [flat_map]. rewrite !map_app, (Hx _ c c'), IHl. reflexivity.
+  - destruct cs as [|x0 l0]; [reflexivity|].
+    assert (G : forall l, Forall (fun t => forall m c c', map proj (flatten m c t) = map proj (flatten m c' t)) l -> forall i,
+        map proj ((fix go (l : list rtree) (i : nat) : list placed := match l with [] => [] | x :: l' => flatten m (c ++ [(o, i)]) x ++ go l' (S i) end) l i) =
+        map proj ((fix go (l : list rtree) (i : nat) : list placed := match l with [] => [] | x :: l' => flatten m (c' ++ [(o, i)]) x ++ go l' (S i) end) l i)).
+    { intros l Hl. induction Hl as [|x l Hx _ IHl]; intros i; [reflexivity|]. rewrite !map_app, (Hx m (c ++ [(o, i)]) (c' ++ [(o, i)])), IHl. reflexivity. }
+    exact (G (x0 :: l0) IH 0%nat).
+Qed.
+Lemma placements_union (a b : rtree) : placements (Node Union [a; b]) = placements a ++ placements b.
+Proof.
+  unfold placements. cbn [flatten mat_of_op]. rewrite app_nil_r, map_app. cbn [app].
+  rewrite (flatten_ctx_irrelevant a mt4_identity ([] ++ [(Union, 0%nat)]) []), (flatten_ctx_irrelevant b mt4_identity ([] ++ [(Union, 1%nat)]) []). reflexivity.
+Qed.
+Lemma proj_move a p : proj (move a p) = premul a (proj p).
+Proof. destruct p as [[c m] o]. reflexivity. Qed.
+Lemma placements_rot_copy (s : rtree) (a : R) :
+  placements (rot_copy s a) = map (premul (mt4_mul (mt4_rot_z_matrix a) (mt4_mul (mt4_rot_y_matrix 0) (mt4_rot_x_matrix 0)))) (placements s).
+Proof.
+  unfold placements, rot_copy. cbn [flatten mat_of_op flat_map p3x p3y p3z]. rewrite app_nil_r, mt4_mul_identity_l.
+  set (Rm := mt4_mul (mt4_rot_z_matrix a) (mt4_mul (mt4_rot_y_matrix 0) (mt4_rot_x_matrix 0))).
+  rewrite <- (mt4_mul_identity_r Rm) at 1. rewrite flatten_move, !map_map. apply map_ext. intros p. apply proj_move.
+Qed.
+
+Theorem polar_array_placements (s : rtree) count degrees : degrees <= 360 ->
+  let steps := if Reqb degrees 360 then count else (count - 1)%Z in
+  exists t, polar_array s count degrees = Some t /\
+    placements t = placements s ++
+      flat_map (fun i => map (premul (mt4_mul (mt4_rot_z_matrix ((IZR i * (- degrees)) / IZR steps)) (mt4_mul (mt4_rot_y_matrix 0) (mt4_rot_x_matrix 0)))) (placements s))
+               (map Z.of_nat (seq 0 (Z.to_nat count))).
+Proof.
+  intros Hd. cbv zeta. unfold polar_array. cbn [nleb neqb nofZ NumR].
+  destruct (Rleb degrees 360) eqn:E; [|apply Rleb_false in E; lra]. eexists. split; [reflexivity|].
+  cbn [nzero nmul nneg ndiv nofZ NumR].
+  set (f := fun i : Z => (IZR i * (- degrees)) / IZR (if Reqb degrees 360 then count else (count - 1)%Z)).
+  generalize (map Z.of_nat (seq 0 (Z.to_nat count))). intros l.
+  assert (G : forall acc, placements (fold_left (fun result i => Node Union [result; Node (Rotate None false (P3 0 0 (f i))) [s]]) l acc) =
+                          placements acc ++ flat_map (fun i => map (premul (mt4_mul (mt4_rot_z_matrix (f i)) (mt4_mul (mt4_rot_y_matrix 0) (mt4_rot_x_matrix 0)))) (placements s)) l).
+  { induction l as [|i l IH]; intros acc; cbn [fold_left flat_map]; [rewrite app_nil_r; reflexivity|].
+    rewrite IH, placements_union. fold (rot_copy s (f i)). rewrite placements_rot_copy, <- app_assoc. reflexivity. }
+  apply G.
+Qed.
+(* rotate([0, 0, a]) is the rotation about Z by a *)
+Lemma rot_zyx_is_rot_z (a : R) : mt4_mul (mt4_rot_z_matrix a) (mt4_mul (mt4_rot_y_matrix 0) (mt4_rot_x_matrix 0)) = mt4_rot_z_matrix a.
+Proof.
+  unfold mt4_rot_y_matrix, mt4_rot_x_matrix. rewrite dcos_0, dsin_0.
+  lazy beta iota zeta delta [mt4_mul mt4_rot_z_matrix mt4_transposed dot4 mx my mz mw x4 y4 z4 w4 nadd nmul nneg nzero none_ NumR]; fold NumR.
+  generalize (dcos a) (dsin a). intros c s. f_equal; f_equal; ring.
 Qed.
